@@ -354,7 +354,8 @@ func diff(a, b string, metadata []jd.Metadata) (string, bool, error) {
 		if err != nil {
 			return "", false, err
 		}
-		if str != "{}" {
+		// The merge patch of a non-object and {} is also "{}".
+		if len(diff) > 0 {
 			haveDiff = true
 		}
 	default:
@@ -410,7 +411,8 @@ func diffV2(a, b string, options []v2.Option) (string, bool, error) {
 		if err != nil {
 			return "", false, err
 		}
-		if str != "{}" {
+		// The merge patch of a non-object and {} is also "{}".
+		if len(diff) > 0 {
 			haveDiff = true
 		}
 	default:
